@@ -101,6 +101,13 @@ def check(run):
         one_case(run, sp_, "momentum")
         one_case(run, sp_, "angmom")
         run.count("declared (non-default) Cartesian component order")
+    from checks.common import DEGENERATE_DISPLACEMENTS, degenerate_pair
+    for k, d in enumerate(DEGENERATE_DISPLACEMENTS if run.tier != "quick" else DEGENERATE_DISPLACEMENTS[:: 2] + DEGENERATE_DISPLACEMENTS[1:2]):
+        for la, lb in ((1, 1), (2, 1)) if run.tier == "quick" else ((1, 1), (2, 1), (1, 2), (2, 2), (3, 1), (0, 2)):
+            s1, s2 = degenerate_pair(rng, la, lb, d)
+            one_case(run, [s1, s2], "momentum")
+            one_case(run, [s2, s1], "angmom")
+        run.count("displacement with special structure")
     for _ in range(3 if run.tier == "quick" else 20):
         specs = random_basis(rng, 1, 3, lmax=3)
         t = random_transform(rng, sum(x.size for x in specs))
